@@ -6,6 +6,6 @@ ids="$@"
 [ -z "$ids" ] && ids=$(ls seeded | grep -v rejected)
 for id in $ids; do
   prop=$(echo $id | cut -d- -f1)
-  if ! git -C /repo apply --check seeded/$id/patch.diff 2>/dev/null; then echo "--- $prop on $id"; echo "PATCH DOES NOT APPLY to /repo HEAD"; continue; fi
+  if ! git -C /repo apply --check /verif/seeded/$id/patch.diff 2>/dev/null; then echo "--- $prop on $id"; echo "PATCH DOES NOT APPLY to /repo HEAD"; continue; fi
   tools/seedtest.sh /verif/seeded/$id $prop 2>&1 | grep -v '^KNOWN' | cut -c1-160
 done
